@@ -61,6 +61,7 @@ package crl
 //@ func parseCRLDistributionPoint(value)
 //@   ensures [err] err != nil ==> len(result) == 0 && ExternalDyn(typeof(err)) && !IsNotFound(err)
 //@   assert after loop 0: [every-point-examined] len(val) == 0
+//@   pure
 //@   loop 0
 //@     invariant true
 //@     decreases len(val)
@@ -78,6 +79,9 @@ package crl
 //@   ensures [ok] err == nil ==> result != nil && fresh(result) && ListShape(result) && x509util.FindExtensionByOID$(extensions, oidFreshestCRL) != nil && ncalls(Client.Do) >= old(ncalls(Client.Do)) + 1
 //@   ensures [err] err != nil ==> result == nil
 //@   ensures [not-found=>nothing-attempted] (err != nil && IsNotFound(err)) ==> ncalls(Client.Do) == old(ncalls(Client.Do))
+// stmt C18: "a base CRL whose advertised delta cannot be obtained or parsed yields an error rather than a base-only
+// bundle": "not found" is reported only when the extension is absent or (parsed successfully and) names no location
+//@   ensures [not-found=>not-advertised] (err != nil && IsNotFound(err)) ==> x509util.FindExtensionByOID$(extensions, oidFreshestCRL) == nil || (parseCRLDistributionPoint$(x509util.FindExtensionByOID$(extensions, oidFreshestCRL).Value).err == nil && len(parseCRLDistributionPoint$(x509util.FindExtensionByOID$(extensions, oidFreshestCRL).Value).result0) == 0)
 //@   loop 0
 //@     invariant f != nil && f.httpClient != nil
 //@     invariant it == 0 ==> ncalls(Client.Do) == old(ncalls(Client.Do))
@@ -107,4 +111,7 @@ package crl
 //@   ensures [miss-is-not-an-error] (called(Cache.Get) && lastret(Cache.Get, 1) != nil && IsMiss(lastret(Cache.Get, 1))) ==> called(HTTPFetcher.fetch) && lastarg(HTTPFetcher.fetch, 2) == url
 //@   ensures [discarded-read-error-is-not-an-error] (called(Cache.Get) && lastret(Cache.Get, 1) != nil && f.DiscardCacheError) ==> called(HTTPFetcher.fetch)
 //@   ensures [stale=>download] (called(Cache.Get) && lastret(Cache.Get, 1) == nil && !(Effective(lastret(Cache.Get, 0).BaseCRL) && (lastret(Cache.Get, 0).DeltaCRL == nil || Effective(lastret(Cache.Get, 0).DeltaCRL)))) ==> called(HTTPFetcher.fetch)
+// stmt C18: "returns ... a bundle freshly downloaded ... and then written to the cache": a successful download whose cache
+// write succeeded (or whose failure the caller discards, or without a cache) is returned, not turned into an error
+//@   ensures [downloaded-and-stored=>returned] (called(HTTPFetcher.fetch) && lastret(HTTPFetcher.fetch, 1) == nil && (f.Cache == nil || f.DiscardCacheError || (called(Cache.Set) && lastret(Cache.Set, 0) == nil))) ==> err == nil && result == lastret(HTTPFetcher.fetch, 0)
 //@   ensures [empty-url] url == "" ==> err != nil && ncalls(Client.Do) == old(ncalls(Client.Do)) && ncalls(Cache.Get) == old(ncalls(Cache.Get))
